@@ -438,3 +438,20 @@ def ensure_go_sum():
     if not os.path.exists(dst) or open(dst).read() != want:
         with open(dst, "w") as fh:
             fh.write(want)
+
+
+def race_reports(stderr, limit=20):
+    """Split Go race detector output into reports; returns [(signature, text)].
+    signature = the innermost bfe frames of the two conflicting accesses."""
+    out = []
+    blocks = stderr.split("WARNING: DATA RACE")[1:]
+    for blk in blocks[:limit]:
+        blk = blk.split("==================")[0]
+        parts = re.split(r"\n(?=Previous (?:read|write) at |Goroutine \d+ \()", blk)
+        tops = []
+        for part in parts[:2]:
+            m = re.search(r"github\.com/bfenetworks/bfe/([\w/]+)\.([\w\(\)\*\.]+)\(\)", part)
+            tops.append("%s.%s" % (m.group(1).split("/")[-1], m.group(2)) if m else "?")
+        sig = "race/" + "|".join(sorted(tops))
+        out.append((sig, "WARNING: DATA RACE" + blk[:2500]))
+    return out
